@@ -29,10 +29,27 @@ Proof. exact Arch.C20Example.example_amd64_statement. Qed.
 Example cc_ok_refutes_old_aarch64 : cc_ok old_aarch64 = false.
 Proof. exact Arch.C20Example.old_aarch64_refuted. Qed.
 
-(* no false alarm, partial: for eight of the twelve clauses the executable check is implied by the clause's
-   part of the statement, so on tables that satisfy C20 these checks cannot fail (open for CNamed,
-   CStackStride, CStackBase, CSpPreserved, which also compare dumped query results) *)
+(* no false alarm, partial: for ten of the twelve clauses the executable check is implied by the clause's
+   part of the statement, so on tables that satisfy C20 these checks cannot fail; CStackBase too when the ABI's
+   first stack slot fits a usize (open: CStackStride, which also compares the dumped query results d_argtypes) *)
 Theorem clause_complete_partial : forall (a : abi) (t : dump) (k : clause),
   C20_statement a t -> In k iff_clauses -> clause_ok a t k = true.
 Proof. exact Arch.CcOk.clause_complete_partial. Qed.
 Print Assumptions clause_complete_partial.
+
+Theorem clause_complete_stack_base : forall (a : abi) (t : dump),
+  C20_statement a t -> (a_stack_base a <= usize_max)%Z -> clause_ok a t CStackBase = true.
+Proof. exact Arch.CcOk.clause_complete_stack_base. Qed.
+Print Assumptions clause_complete_stack_base.
+
+(* the hypotheses are satisfiable (System V x86-64 tables) and the ten clauses are the ones named *)
+Example complete_example :
+  iff_clauses = [CDescr; CLifted; CStackOps; CArgs; CRet; CRetAddr; CDisjoint; CClasses; CNamed; CSpPreserved] /\
+  (a_stack_base abi_amd64 <= usize_max)%Z /\
+  forallb (clause_ok abi_amd64 example_amd64) (CStackBase :: iff_clauses) = true.
+Proof.
+  split; [reflexivity|]. split; [vm_compute; discriminate|].
+  apply forallb_forall. intros k [<-|Hk].
+  - apply clause_complete_stack_base; [exact c20_statement_example|vm_compute; discriminate].
+  - apply clause_complete_partial; [exact c20_statement_example|exact Hk].
+Qed.
